@@ -338,6 +338,25 @@ def run(repo, rep, tier):
                         rep.finding("R14.5", f, n, f"`{ast.unparse(bad)[:60]}` builds a Series with a fresh 0..n-1 index and assigns it into a column of "
                                     f"`{tgt.value.id}`: pandas aligns on index labels, so for a dataframe whose index is not 0..n-1 (any row chunk) "
                                     f"the column becomes NaN / attached to the wrong rows", stmt=f"fresh-index Series into {tgt.value.id}[...]")
+    # ---------------- R14.6 per-axis lookups use the axis index they were asked for
+    r6 = rep.rule("R14.6", "a function that takes an axis index looks the column list up with that index, never with a literal position", floor=2)
+    for f in [x for x in repo.all_functions() if x.module.name.startswith(DF)]:
+        idxp = [p for p in f.params if p in ("idx", "index", "axis", "i_axis")]
+        if not idxp:
+            continue
+        others = [p for p in f.params if p not in idxp]
+        for n in walk_local_stmt(f.node):
+            if isinstance(n, ast.Subscript) and isinstance(n.ctx, ast.Load) and isinstance(n.value, ast.Name) and n.value.id in others:
+                by_idx = isinstance(n.slice, ast.Name) and n.slice.id in idxp
+                literal = isinstance(n.slice, ast.Constant) and isinstance(n.slice.value, int)
+                if not (by_idx or literal):
+                    continue
+                r6.ob(by_idx, f"{f.qualname}: `{ast.unparse(n)}`")
+                if literal:
+                    rep.finding("R14.6", f, n, f"{f.qualname} is asked for axis `{idxp[0]}` but reads `{ast.unparse(n)}` (a fixed position) from its column "
+                                f"list: for a multi-dimensional feature the data type / bin specification of another axis is used, so the axis is "
+                                f"binned with the wrong default and the histogram differs from filling the same tree directly",
+                                stmt=f"fixed position {ast.unparse(n)} instead of [{idxp[0]}]")
     # ---------------- R14.4
     fh = pd_m.functions.get("_fill_histogram")
     if fh is None:
